@@ -117,7 +117,7 @@ def trees(draw):
         for i in range(draw(st.integers(1, 3))):
             index.append([draw(st.sampled_from(REQUESTS)), draw(st.sampled_from([f[1] for f in uniq] + ['missing.txt', 'sub/FOO-MIB.txt']))])
     return {'files': uniq, 'opts': opts, 'recursive': draw(st.booleans()), 'request': draw(st.sampled_from(REQUESTS)),
-            'index': index, 'zipdepth': draw(st.integers(0, 3)), 'deflate': draw(st.booleans())}
+            'index': index, 'zipdepth': draw(st.integers(0, 3)), 'deflate': draw(st.booleans()), 'tz': draw(st.integers(0, 3))}
 
 
 def build_dir(case, root):
@@ -292,7 +292,37 @@ def build_zip(case):
     return blob if blob is not None else _zip_bytes([], case['deflate']), levels
 
 
+class _tz(object):
+    """Process time zone for one case: ZIP directories store local wall-clock times, so the member time a reader
+    reports is time.mktime() of them - also inside a daylight-saving period (isdst unknown, not 'standard time')."""
+
+    def __init__(self, name):
+        self.name = name
+
+    def __enter__(self):
+        self.old = os.environ.get('TZ')
+        os.environ['TZ'] = self.name
+        time.tzset()
+
+    def __exit__(self, *a):
+        if self.old is None:
+            os.environ.pop('TZ', None)
+        else:
+            os.environ['TZ'] = self.old
+        time.tzset()
+        return False
+
+
+ZONES = ('UTC', 'UTC', 'EST5EDT,M3.2.0,M11.1.0', 'CET-1CEST,M3.5.0,M10.5.0/3')
+
+
 def zip_prop(case, rec):
+    with _tz(ZONES[case.get('tz', 0) % len(ZONES)]):
+        rec.count('zip.tz.' + ZONES[case.get('tz', 0) % len(ZONES)].split(',')[0])
+        _zip_prop(case, rec)
+
+
+def _zip_prop(case, rec):
     from pysmi.reader.zipreader import ZipReader
     from pysmi import error
     root = tempfile.mkdtemp(prefix='c14z')
@@ -377,7 +407,7 @@ def archive_trees(draw):
         opts[k] = draw(st.sampled_from((True, True, True, False)))
     if not (opts['originalMatching'] or opts['uppercaseMatching'] or opts['lowcaseMatching']):
         opts['originalMatching'] = True
-    return {'root': draw(archive(3)), 'opts': opts, 'deflate': draw(st.booleans()),
+    return {'root': draw(archive(3)), 'opts': opts, 'deflate': draw(st.booleans()), 'tz': draw(st.integers(0, 3)),
             'requests': draw(st.lists(st.sampled_from(REQUESTS), min_size=1, max_size=5))}
 
 
@@ -394,6 +424,11 @@ def _arch_bytes(a, deflate, out, depth):
 
 
 def ziptree_prop(case, rec):
+    with _tz(ZONES[case.get('tz', 0) % len(ZONES)]):
+        _ziptree_prop(case, rec)
+
+
+def _ziptree_prop(case, rec):
     from pysmi.reader.zipreader import ZipReader
     from pysmi import error
     root = tempfile.mkdtemp(prefix='c14t')
